@@ -16,6 +16,7 @@ fn main() {
         "line_index" => line_index(&sc),
         "config_load" => config_load(&sc),
         "parse" => parse(&sc),
+        "history" => history(&sc),
         _ => json!({"error": format!("unknown scenario kind {kind}")}),
     };
     println!("{}", out);
@@ -171,4 +172,81 @@ fn parse(sc: &Value) -> Value {
     }
     let bad = outs.iter().any(|o| o["lossless"] == json!(false));
     json!({"results": outs, "violates": bad})
+}
+
+
+/// scenarios: [{id, steps: [{op: "set", name, text} | {op: "remove", name} | {op: "reindex"}]}]
+/// After the steps, the diagnostics of every file still present are compared with those of a FRESH
+/// workspace that only ever saw the final contents of those files (same order of first appearance).
+fn history(sc: &Value) -> Value {
+    fn summary(ws: &mut VirtualWorkspace, files: &[(String, String)]) -> Vec<Value> {
+        let mut out = vec![];
+        for (name, _) in files {
+            let uri = ws.virtual_url_generator.new_uri(name);
+            let Some(fid) = ws.analysis.get_file_id(&uri) else {
+                out.push(json!({"file": name, "missing": true}));
+                continue;
+            };
+            let mut ds: Vec<String> = ws
+                .analysis
+                .diagnose_file(fid, CancellationToken::new())
+                .unwrap_or_default()
+                .iter()
+                .map(|d| format!("{:?}@{}:{}-{}:{} {}", d.code, d.range.start.line, d.range.start.character, d.range.end.line, d.range.end.character, d.message))
+                .collect();
+            ds.sort();
+            out.push(json!({"file": name, "diagnostics": ds}));
+        }
+        // index-level observables: how many global declarations and type declarations the index holds
+        let db = ws.analysis.compilation.get_db();
+        let mut globals: Vec<String> = db
+            .get_global_index()
+            .get_all_global_decl_ids()
+            .iter()
+            .map(|id| format!("{}@{:?}", id.file_id.id, id.position))
+            .collect();
+        globals.sort();
+        let mut types: Vec<String> = db.get_type_index().get_all_types().iter().map(|t| t.get_full_name().to_string()).collect();
+        types.sort();
+        out.push(json!({"index": {"global_decls": globals.len(), "types": types}}));
+        out
+    }
+    let mut results = vec![];
+    for s in sc["scenarios"].as_array().cloned().unwrap_or_default() {
+        let id = s["id"].as_str().unwrap_or("?").to_string();
+        let mut ws = VirtualWorkspace::new();
+        let mut current: Vec<(String, String)> = vec![];
+        for st in s["steps"].as_array().cloned().unwrap_or_default() {
+            match st["op"].as_str().unwrap_or("") {
+                "set" => {
+                    let name = st["name"].as_str().unwrap_or("a.lua").to_string();
+                    let text = st["text"].as_str().unwrap_or("").to_string();
+                    ws.def_file(&name, &text);
+                    if let Some(e) = current.iter_mut().find(|(n, _)| *n == name) {
+                        e.1 = text;
+                    } else {
+                        current.push((name, text));
+                    }
+                }
+                "remove" => {
+                    let name = st["name"].as_str().unwrap_or("a.lua").to_string();
+                    let uri = ws.virtual_url_generator.new_uri(&name);
+                    ws.analysis.remove_file_by_uri(&uri);
+                    current.retain(|(n, _)| *n != name);
+                }
+                "reindex" => ws.analysis.reindex(),
+                _ => {}
+            }
+        }
+        let got = summary(&mut ws, &current);
+        let mut fresh = VirtualWorkspace::new();
+        for (n, t) in &current {
+            fresh.def_file(n, t);
+        }
+        let want = summary(&mut fresh, &current);
+        let violates = got != want;
+        results.push(json!({"id": id, "violates": violates, "why": if violates { json!({"after_history": got, "fresh": want}) } else { Value::Null }}));
+    }
+    let bad = results.iter().any(|r| r["violates"] == json!(true));
+    json!({"results": results, "violates": bad})
 }
